@@ -682,6 +682,42 @@ func (m *moduleChecker) parseTypes(b *bsBlock) {
 			m.find("module.type-ref", "type %d refers forward to type %d (%s); only named structs may be forward referenced", from, id, m.tyString(id))
 		}
 	}
+	// a type may contain itself only through a pointer
+	state := make([]int, len(m.types))
+	var visit func(i int) bool
+	visit = func(i int) bool {
+		if i < 0 || i >= len(m.types) {
+			return false
+		}
+		if state[i] == 1 {
+			return true
+		}
+		if state[i] == 2 {
+			return false
+		}
+		state[i] = 1
+		t := m.types[i]
+		cyc := false
+		switch t.kind {
+		case tArray, tVector:
+			cyc = visit(t.elem)
+		case tStruct:
+			for _, f := range t.fields {
+				if visit(f) {
+					cyc = true
+					break
+				}
+			}
+		}
+		state[i] = 2
+		return cyc
+	}
+	for i := range m.types {
+		m.fire("module.type-table")
+		if state[i] == 0 && visit(i) {
+			m.find("module.type-table", "type %d (%s) contains itself by value (recursion is only legal through pointers)", i, m.tyString(i))
+		}
+	}
 	// element type validity (LLVM isValidElementType rules)
 	for i, t := range m.types {
 		bad := func(e int, why string) {
@@ -818,6 +854,12 @@ func (m *moduleChecker) functionDecl(r *bsRecord) {
 	}
 	fd.fty = tid
 	v.ty = m.ptrTo(tid, 0)
+	if fd.isProto {
+		switch r.Ops[3] {
+		case 1, 2, 3, 4, 8, 9, 10, 11, 12, 13, 14, 16, 17, 18, 19:
+			m.find("module.function-decl", "FUNCTION value #%d is a declaration (isproto=1) with linkage code %d; declarations must have external or extern_weak linkage", fd.valueID, r.Ops[3])
+		}
+	}
 	m.fire("module.paramattr")
 	if r.Ops[4] > uint64(m.numAttrs) {
 		m.find("module.paramattr", "FUNCTION value #%d: paramattr index %d but the PARAMATTR block has %d entries", fd.valueID, r.Ops[4], m.numAttrs)
@@ -901,12 +943,13 @@ func (m *moduleChecker) parseConstants(b *bsBlock, vals []value, where string) [
 				} else {
 					ci.isInt = true
 					ci.ival = decodeSignRotated(r.Ops[0])
-					if ct != nil && ct.width < 64 {
+					if ct != nil && ct.width < 63 {
 						// the value must be representable in the type's width (as signed or unsigned)
 						w := ct.width
 						lo, hi := -(int64(1) << (w - 1)), int64(1)<<w-1
+						m.fire("module.const-range")
 						if ci.ival < lo || ci.ival > hi {
-							bad("integer value %d does not fit i%d", ci.ival, w)
+							m.find("module.const-range", "%s CONSTANTS value #%d: integer value %d does not fit the current type i%d (a reader truncates it silently)", where, id, ci.ival, w)
 						}
 					}
 				}
